@@ -308,7 +308,49 @@ def far_worker(part, job):
     part.outcome(("far", len(dists), max(dists) > 10.58))
 
 
+def cluster_worker(part, natoms):
+    """
+    large atom counts (a crystal environment holds thousands of atoms): a cubic lattice cluster of `natoms` atoms, evaluated at points
+    near its centre - the density is still the sum of the tabulated atomic densities, additive over a split of the cluster
+    """
+    from chmpy.interpolate.density import PromoleculeDensity
+
+    n = int(round(natoms ** (1.0 / 3.0))) + 1
+    g = (np.arange(n) - (n - 1) / 2.0) * 1.9
+    sites = np.array(list(itertools.product(g, g, g)))
+    order = np.argsort(np.linalg.norm(sites + np.array([0.11, 0.07, 0.03]), axis=1), kind="stable")
+    sites = sites[order][:natoms]
+    zs = np.array([(1, 6, 8, 7, 17)[k % 5] for k in range(natoms)])
+    pts = np.array(list(itertools.product((-0.95, 0.3, 0.95), repeat=3))) + np.array([0.05, -0.02, 0.04])
+    keep = np.min(np.linalg.norm(pts[:, None, :] - sites[None, :, :], axis=2), axis=1) >= 0.3
+    pts = pts[keep]
+    case = {"kind": "cluster", "natoms": int(natoms)}
+    part.ev()
+    part.nstates(1)
+    part.tr(3)
+    try:
+        got = np.asarray(PromoleculeDensity((zs, sites)).rho(pts), dtype=np.float64)
+        half = natoms // 2
+        ga = np.asarray(PromoleculeDensity((zs[:half], sites[:half])).rho(pts), dtype=np.float64)
+        gb = np.asarray(PromoleculeDensity((zs[half:], sites[half:])).rho(pts), dtype=np.float64)
+    except Exception as e:
+        part.fail("cluster:raise", "a cluster of %d atoms raised %r" % (natoms, e), case)
+        return
+    want, alt = interp.promolecule_rho(zs, sites.astype(np.float32).astype(np.float64), pts.astype(np.float32).astype(np.float64))
+    e = relerr(got, want, alt)
+    part.dev("cluster_sum_rel", e)
+    if e > REL:
+        part.fail("cluster:sum-of-atoms", "density of a cluster of %d atoms deviates from the sum of tabulated atomic densities (rel. err %.3g)" % (natoms, e), case)
+    e = relerr(ga + gb, got)
+    if e > 1e-5:
+        part.fail("cluster:additivity", "rho(A u B) != rho(A) + rho(B) (rel. %.3g) for a cluster of %d atoms split in two" % (e, natoms), case)
+    part.outcome(("cluster", natoms > 4096))
+
+
 def worker(part, job, seed):
+    if job[0] == "cluster":
+        cluster_worker(part, job[1])
+        return
     if job[0] == "far":
         far_worker(part, job[1])
         return
@@ -357,6 +399,7 @@ def run(ctx):
         for dists in ((3.0, 13.0), (10.5,), (10.7,), (25.0,), (3.0, 8.0, 10.6, 15.0), (12.0, 12.5, 30.0)):
             far.append(("far", (zi, ze, dists)))
     jobs += far
+    jobs += [("cluster", n) for n in ((255, 256, 257, 1000, 4095, 4096, 4097, 8193) if not ctx.thorough else (255, 256, 257, 1000, 4095, 4096, 4097, 8193, 16385, 32769, 65537))]
     bs = BATCH_SIZES if ctx.thorough else tuple(n for n in BATCH_SIZES if n <= 70001)
     jobs += [("batch", bs[i::4]) for i in range(4)]
     jobs += [("config", c, 20 if not ctx.thorough else 5) for c in chunked(configs, max(1, len(configs) // 200))]
@@ -377,6 +420,8 @@ def replay(ctx, case):
         table_worker(ctx, [case["z"]])
     elif case["kind"] == "config":
         config_worker(ctx, [(0, (tuple(case["sites"]), tuple(case["zs"])))], case["seed"], 1)
+    elif case["kind"] == "cluster":
+        cluster_worker(ctx, case["natoms"])
     elif case["kind"] == "far":
         far_worker(ctx, (tuple(case["zi"]), tuple(case["ze"]), tuple(case["dists"])))
     elif case["kind"] == "batch":
